@@ -129,6 +129,30 @@ def validate_translator():
 
 
 # ------------------------------------------------------------------ SMT obligations
+def _grid_fallback(z3, assume, vars_, concrete):
+    s, e, qs, qe = vars_
+    cond = z3.And(assume) if assume else z3.BoolVal(True)
+    uses_q = any(str(v) in str(cond) for v in ("qs", "qe"))
+    pts = [(a, a + l) for a in GRID_STARTS for l in GRID_LENS]
+    qpts = [(0, 0)] if not uses_q else [(a - d1, b + d2) for a, b in pts[::7] for d1 in (0, 1, 131072) for d2 in (0, 1, 131072)]
+    n = 0
+    for (a, b) in pts:
+        for (qa, qb) in (qpts if uses_q else [(0, 0)]):
+            n += 1
+            if n > 60000:
+                return None
+            ok = z3.simplify(z3.substitute(cond, (s, z3.IntVal(a)), (e, z3.IntVal(b)), (qs, z3.IntVal(qa)), (qe, z3.IntVal(qb))))
+            if not z3.is_true(ok):
+                continue
+            try:
+                holds = concrete(start=a, stop=b, qs=qa, qe=qb)
+            except Exception:  # noqa
+                holds = False
+            if not holds:
+                return dict(start=a, stop=b, qs=qa, qe=qb)
+    return None
+
+
 def _smt(name, build, concrete, desc):
     """build(z3, enc, s, e, qs, qe) -> list of assertions (assumptions + NEGATED property)"""
 
@@ -137,20 +161,43 @@ def _smt(name, build, concrete, desc):
 
         from vlib.src2smt import BinsEncoder, EncodingError, Query
 
+        s, e, qs, qe = z3.Ints("start stop qs qe")
+        assume, excluded = [], []
         try:
             enc = BinsEncoder()
-            s, e, qs, qe = z3.Ints("start stop qs qe")
-            asserts = build(z3, enc, s, e, qs, qe)
-            excluded = []
+            assume, negprop_fn = build(z3, enc, s, e, qs, qe)
             for fid, region in findings.regions_for("C16", name):
                 env = _region_env(z3)
                 env.update(start=s, stop=e, qs=qs, qe=qe)
-                asserts.append(z3.Not(eval(region, env)))
+                assume.append(z3.Not(eval(region, env)))
                 excluded.append(fid)
+            negprop = negprop_fn()
         except EncodingError as ex:
-            return dict(verdict="UNKNOWN", message="encoding no longer valid for bins(): %s" % ex, queries=0)
-        res = Query(name, asserts, [s, e, qs, qe]).solve()
-        out = dict(queries=2 if res.get("cvc5") in ("sat", "unsat") else 1, z3=res["z3"], cvc5=res.get("cvc5"),
+            # bins() is no longer inside the translatable subset: the solver cannot decide. Fallback (stated as such in
+            # evidence): run the concrete property on the boundary grid; a failing point is reported through replay,
+            # otherwise the obligation stays INCONCLUSIVE (never green).
+            msg = "encoding no longer valid for bins(): %s" % ex
+            if assume:
+                bad = _grid_fallback(z3, assume, (s, e, qs, qe), concrete)
+                if bad is not None:
+                    return dict(verdict="REFUTED", cex=bad, queries=0, fallback="concrete boundary grid",
+                                message=msg + "; concrete boundary grid found a failing input %s" % bad)
+            return dict(verdict="UNKNOWN", message=msg, queries=0)
+        nq = 0
+        if enc.side_conditions:
+            # the encoding is exact only where its side conditions hold (subscripts in range, |x| < 2^64 for bit_length):
+            # an input within the assumptions that violates one is a candidate counterexample (IndexError in the real code)
+            sc = Query(name + ":side", assume + [s > -2 ** 62, s < 2 ** 62, e > -2 ** 62, e < 2 ** 62, qs > -2 ** 62, qs < 2 ** 62,
+                                                 qe > -2 ** 62, qe < 2 ** 62, z3.Not(z3.And(enc.side_conditions))], [s, e, qs, qe]).solve(cross=False)
+            nq += 1
+            if sc["z3"] == "sat":
+                return dict(verdict="REFUTED", cex=sc["model"], queries=nq,
+                            message="encoding side condition (index in range) violated: z3 model %s" % sc["model"])
+            if sc["z3"] != "unsat":
+                return dict(verdict="UNKNOWN", message="side-condition query: %s" % sc["z3"], queries=nq)
+            assume = assume + [s > -2 ** 62, s < 2 ** 62, e > -2 ** 62, e < 2 ** 62, qs > -2 ** 62, qs < 2 ** 62, qe > -2 ** 62, qe < 2 ** 62]
+        res = Query(name, assume + [negprop], [s, e, qs, qe]).solve()
+        out = dict(queries=nq + (2 if res.get("cvc5") in ("sat", "unsat") else 1), z3=res["z3"], cvc5=res.get("cvc5"),
                    solver_s=res["z3_s"], excluded_known_findings=excluded)
         if res["z3"] == "unsat" and res.get("cvc5") in ("unsat", "unavailable", "unknown", "none") or \
                 (res["z3"] == "unsat" and str(res.get("cvc5", "")).startswith("error")):
@@ -180,7 +227,7 @@ def obligations(tier):
 
     # 1. one=True equals the UCSC reference for in-range coordinates (bed convention)
     def b1(z3, enc, s, e, qs, qe):
-        return [0 <= s, s <= e, e < MAXC, enc.bin1(s, e, "bed") != ref_bin_z3(z3, s, e)]
+        return [0 <= s, s <= e, e < MAXC], lambda: enc.bin1(s, e, "bed") != ref_bin_z3(z3, s, e)
 
     def c1(start, stop, **kw):
         return _real_bins()(start, stop, fmt="bed") == ref_bin(start, stop)
@@ -189,7 +236,7 @@ def obligations(tier):
 
     # 1b. gff convention: 1-based closed [s, e] == 0-based [s-1, e)
     def b1g(z3, enc, s, e, qs, qe):
-        return [1 <= s, s <= e, e < MAXC, enc.bin1(s, e, "gff") != ref_bin_z3(z3, s - 1, e)]
+        return [1 <= s, s <= e, e < MAXC], lambda: enc.bin1(s, e, "gff") != ref_bin_z3(z3, s - 1, e)
 
     def c1g(start, stop, **kw):
         return _real_bins()(start, stop, fmt="gff") == ref_bin(start - 1, stop)
@@ -198,7 +245,7 @@ def obligations(tier):
 
     # 2. out of range -> 1
     def b2(z3, enc, s, e, qs, qe):
-        return [z3.Or(s < 0, e < 0, s >= MAXC, e >= MAXC), z3.Or(enc.bin1(s, e, "bed") != 1, enc.bin1(s, e, "gff") != 1)]
+        return [z3.Or(s < 0, e < 0, s >= MAXC, e >= MAXC)], lambda: z3.Or(enc.bin1(s, e, "bed") != 1, enc.bin1(s, e, "gff") != 1)
 
     def c2(start, stop, **kw):
         return _real_bins()(start, stop, fmt="bed") == 1 and _real_bins()(start, stop, fmt="gff") == 1
@@ -207,7 +254,7 @@ def obligations(tier):
 
     # 3. the assigned bin always CONTAINS the interval (the part range queries rely on)
     def b3(z3, enc, s, e, qs, qe):
-        return [0 <= s, s <= e, e < MAXC, z3.Not(extent_contains_z3(z3, enc.bin1(s, e, "bed"), s, e))]
+        return [0 <= s, s <= e, e < MAXC], lambda: z3.Not(extent_contains_z3(z3, enc.bin1(s, e, "bed"), s, e))
 
     def c3(start, stop, **kw):
         return extent_contains(_real_bins()(start, stop, fmt="bed"), start, stop)
@@ -216,7 +263,7 @@ def obligations(tier):
 
     # 3b. one=True always returns an int (never falls through to the set)
     def b3b(z3, enc, s, e, qs, qe):
-        return [z3.Or(enc.bin1(s, e, "bed") == -777, z3.And(s >= 1, enc.bin1(s, e, "gff") == -777))]
+        return [], lambda: z3.Or(enc.bin1(s, e, "bed") == -777, z3.And(s >= 1, enc.bin1(s, e, "gff") == -777))
 
     def c3b(start, stop, **kw):
         return isinstance(_real_bins()(start, stop, fmt="bed"), int) and (
@@ -226,8 +273,7 @@ def obligations(tier):
 
     # 4. contract used by range queries: contained => assigned bin in the query's bin set
     def b4(z3, enc, s, e, qs, qe):
-        return [0 <= qs, qs <= s, s <= e, e <= qe, qs < qe,
-                z3.Not(enc.inbins(enc.bin1(s, e, "bed"), qs, qe, "bed"))]
+        return [0 <= qs, qs <= s, s <= e, e <= qe, qs < qe], lambda: z3.Not(enc.inbins(enc.bin1(s, e, "bed"), qs, qe, "bed"))
 
     def c4(start, stop, qs, qe):
         real = _real_bins()
@@ -238,8 +284,7 @@ def obligations(tier):
 
     # 5. overlapping => assigned bin in the query's bin set
     def b5(z3, enc, s, e, qs, qe):
-        return [0 <= qs, qs < qe, 0 <= s, s < e, s < qe, qs < e,
-                z3.Not(enc.inbins(enc.bin1(s, e, "bed"), qs, qe, "bed"))]
+        return [0 <= qs, qs < qe, 0 <= s, s < e, s < qe, qs < e], lambda: z3.Not(enc.inbins(enc.bin1(s, e, "bed"), qs, qe, "bed"))
 
     out.append(_smt("overlapping_never_hidden", b5, c4,
                     "for every query [qs,qe) and interval [s,e) overlapping it: bins(s,e) in bins(qs,qe,one=False)"))
@@ -304,7 +349,40 @@ def _wiring(tier):
         c = VariantIntervalCollection([v1, v2], guid=6)
         return AND(expect(v1, *bl[0]), expect(v2, *bl[1]), c.start == bl[0][0], c.end == bl[1][1])
 
+    def chunk_parent(w, L=12):
+        from inscripta.biocantor.location.location_impl import SingleInterval
+        from inscripta.biocantor.parent import Parent, SequenceType
+        from inscripta.biocantor.sequence import Alphabet, Sequence
+
+        return Parent(
+            id="chr1:chunk", sequence=Sequence(
+                "ACGTTGCAACGT"[:L], Alphabet.NT_STRICT, type=SequenceType.SEQUENCE_CHUNK,
+                parent=Parent(location=SingleInterval(w, w + L, PLUS, parent=Parent(id="chr1", sequence_type=SequenceType.CHROMOSOME)))))
+
+    def on_chunk(kind):
+        def fn(w, s0, l0):
+            from inscripta.biocantor.gene.feature import FeatureInterval
+            from inscripta.biocantor.gene.transcript import TranscriptInterval
+            from inscripta.biocantor.gene.variants import VariantInterval
+
+            par = chunk_parent(w)
+            if kind == "transcript":
+                o = TranscriptInterval([s0], [s0 + l0], MINUS, guid=3, parent_or_seq_chunk_parent=par)
+            elif kind == "feature":
+                o = FeatureInterval([s0], [s0 + l0], PLUS, guid=3, parent_or_seq_chunk_parent=par)
+            else:
+                o = VariantInterval(s0, s0 + l0, "A", "SNV", guid=3, parent_or_seq_chunk_parent=par)
+            return AND(expect(o, s0, s0 + l0), o.start == s0, o.end == s0 + l0)
+
+        return fn
+
     out = []
+    for kind in ("transcript", "feature", "variant"):
+        out.append(Obl("wiring_chunk_" + kind, on_chunk(kind), {"w": int, "s0": int, "l0": int},
+                       lambda w, s0, l0: w >= 0 and l0 >= 1 and w <= s0 and s0 + l0 <= w + 12, budget=120, cost=5,
+                       examples=[dict(w=131070, s0=131071, l0=3), dict(w=0, s0=2, l0=4)],
+                       desc="%s built on a sequence chunk stores bin == bins(chromosome start, chromosome end, 'bed')" % kind,
+                       bounds="chunk of length 12 at symbolic chromosome offset, 1 block inside the chunk", stubs=dict(bins="record")))
     params = layout_params(2)
 
     def pre(**kw):
